@@ -13,10 +13,17 @@ META = {
             "instruction of generated sessions incl. failing ones, the epilogue by register dumps after real "
             "failures, and the property is checked end-to-end against a twin VM that performed only the completed "
             "effects (same probes, same stack traces, same sp/capacity), k up to 1000.",
-    "note": "Trusted: Lean kernel; axioms propext/Quot.sound (Classical.choice where simp uses it). T07.2 for histories "
-            "containing successful evaluations assumes `Balanced` (a successful evaluation returns sp to 0) as an "
-            "explicit hypothesis: it is the calling convention, checked on every generated session (sp observed 0) "
-            "but not proved; the equivalence clause (later evaluations return what a twin VM returns) is carried by "
+    "note": "Trusted: Lean kernel; axioms propext/Quot.sound (Classical.choice where simp uses it). The error arm of "
+            "run_count ends with run_gc() (repo commit 1a2fd33); the model's error arm is gc(onError s) and T07.1/T07.2 "
+            "carry the explicit hypothesis GcRegs (the collector touches only the heap: stack and registers unchanged; "
+            "true of run_gc, which only marks and sweeps), the heap clause of T07.1 reads heap = (gc (onError sf)).heap. T07.2 for histories "
+            "containing successful evaluations: `Balanced` is now a theorem (balanced_of_verified, "
+            "sp_zero_between_evaluations_verified: no Balanced hypothesis) for every code object the bytecode verifier "
+            "Vm/Verify.lean accepts, from WF-stack preservation (step_preserves, all 16 opcodes) — under the explicit "
+            "hypothesis structures CodeLaws (generic heap) and GcLaws (collector changes only the heap and keeps lambdas "
+            "referenced from ip.0 / the live stack), parameters not axioms, and EntryOK (each job's entry lambda is "
+            "verified entry code); that real compiled code verifies is checked by C04's bytecode-verifier stream on "
+            "every lambda of the real heap, not proved for the compiler model. The old theorem with the hypothesis is kept; the equivalence clause (later evaluations return what a twin VM returns) is carried by "
             "T07.1's 'heap unchanged + quiescent registers' plus the twin-VM exploration, not by a closed "
             "observational-equivalence theorem. Machine.lean is hand-written; its tie to run.rs is the lock-step "
             "correspondence (differential testing on reached states).",
@@ -30,6 +37,13 @@ THEOREMS = [
     "Marwood.Proofs.C07.quiescent_stack_no_instrPtr",
     "Marwood.Proofs.C07.sp_zero_between_evaluations",
     "Marwood.Proofs.C07.consecutive_failures_quiescent",
+    "Marwood.Vm.step_preserves",
+    "Marwood.Vm.step_halt",
+    "Marwood.Vm.runLoop_wf",
+    "Marwood.Proofs.C07.balanced_of_verified",
+    "Marwood.Proofs.C07.failed_idle",
+    "Marwood.Proofs.C07.sp_zero_between_evaluations_verified",
+    "Marwood.Proofs.C07.balanced_sp",
 ]
 
 
